@@ -1,0 +1,14 @@
+//go:build verif
+
+package tokenizer
+
+// Contracts for the govc verification-condition generator (see /verif/DESIGN.md, sections 1.2, 4.11, 4.13).
+// This file is comment-only: it contains no declarations and changes no compiled code.
+
+// Every error a tokenizer function returns is a structured error with a tokenizer (E1xxx) code, or the
+// context's error (NewWithKeywords validates a constructor argument, it does not tokenize); an error that exists because the context fired matches it under errors.Is.
+//@ func *
+//@   except NewWithKeywords
+//@   ensures  @C13 implies(err != nil, structured(err) || isctx(err))
+//@   ensures  @C13 implies(err != nil && structured(err), fam(err) == 1)
+//@   ensures  @C11 implies(err != nil && causectx(err), isctx(err))
